@@ -128,14 +128,8 @@ def specScaleSeg (m0 : Content) (v : Name) (names : List Name) (sgn : Rat)
   match withPars m0 raw.2 with
   | .error e => .error e
   | .ok c =>
-    zipWithE (fun (r : Rat × Row) (s : Rat × Row) =>
-      match stoichOfVarAt c v (some s.2) s.1 with
-      | .error e => .error e
-      | .ok st =>
-        match scaleTable st names sgn [r] with
-        | .error e => .error e
-        | .ok [r'] => .ok r'
-        | .ok _ => .error (.other "unreachable")) fl raw.1
+    zipWithE (bindRow (fun (s : Rat × Row) => stoichOfVarAt c v (some s.2) s.1) (scaleRowWith names sgn))
+      fl raw.1
 
 def specProdCons (res : Res) (m0 : Content) (prod : Bool) (v : Name) (scaled : Bool)
     (n : Norm) (cc : Bool) : Except Err View :=
